@@ -82,6 +82,21 @@ CHECKS["C15"] = {'design_ref': 'DESIGN.md section 6 C15, sections 2.1, 8, 10',
          'only) on generated event sequences incl. congestion-avoidance runs; a second component compares '
          'the bit patterns of the real f64::cbrt / f64::powf(.,3.) with the oracles used to run the model.'}
 
+CHECKS["C19"] = {
+  "text": "UserTx ring + UtpStreamWriteHalf modelled as a state machine; theorems over EVERY op list: |ring| <= capacity <= "
+          "max(initial, max); bytes accepted minus bytes removed = |ring| and the ring is exactly that suffix of what was written "
+          "(nothing lost, duplicated or reordered, also across grow); a write on a full live ring stores nothing, returns Pending and "
+          "leaves the writer waker registered; grow keeps the contents and sets capacity to min(2c, max) only when c < max; "
+          "truncate_front removes exactly min(n, |ring|) oldest bytes; a registered writer waker is fired by the dispatcher's wake and by "
+          "mark_vsock_closed; a successful write fires a registered dispatcher waker. Tied to the real UserTx/UtpStreamWriteHalf by "
+          "differential op-list runs (ring content hash, capacity, flags, waker registrations, wake counts); extracted predicate c19_ok on impl traces.",
+  "design_ref": "DESIGN.md section 6 C19",
+  "note": "Trusted: Coq kernel, hand-written model, extraction, drivers, generators; atomicity of each locked method; ringbuf crate. No axioms. "
+          "Partial: that the dispatcher wakes the writer whenever acknowledgements free space (truncate_front followed by the wake) is a "
+          "connection-level fact covered with the connection model, not by this component check.",
+  "technique": "Coq proof (invariant by induction over op lists) + differential correspondence",
+}
+
 ALL = ["C%02d" % i for i in range(1, 20)]
 NOT_APPLICABLE = {p: "check not built yet at this commit (planned: DESIGN.md section 6); not claimed"
                   for p in ALL if p not in CHECKS}
